@@ -35,6 +35,9 @@ type C09Case struct {
 	// ProbeMethod is the request method the /c and /i/x probes use ("" = GET):
 	// the endpoints keep their meaning whatever the method.
 	ProbeMethod string `json:"probe_method,omitempty"`
+	// RootLink: -serve-files-from names the directory or file through a
+	// symbolic link placed outside the tree (releases/current -> ...).
+	RootLink bool `json:"root_link,omitempty"`
 }
 
 // strictShell matches request targets that the mux certainly routes to a shell
@@ -183,6 +186,14 @@ func runC09(t testing.TB, c C09Case) (key, what string, st c09Stats) {
 		}
 		single = ti.contents[name]
 		cfg.FDir = filepath.Join(ti.root, name)
+	}
+	if c.RootLink && cfg.FDir != "" {
+		ln := filepath.Join(dir, "served-through-link")
+		if err := os.Symlink(cfg.FDir, ln); err != nil {
+			panic(err)
+		}
+		cfg.FDir = ln
+		st.classes["root-named-through-symlink-"+c.Mode]++
 	}
 	s, err := Start(cfg)
 	if err != nil {
@@ -448,6 +459,7 @@ var hostileSegs = []string{"..", ".", "%2e%2e", "%2E.", ".%2e", "%252e%252e", ".
 func genC09() *rapid.Generator[C09Case] {
 	return rapid.Custom(func(t *rapid.T) C09Case {
 		c := C09Case{Mode: rapid.SampledFrom([]string{"dir", "dir", "dir", "file", "unset"}).Draw(t, "mode"), Probe: rapid.IntRange(0, 3).Draw(t, "probe") == 0}
+		c.RootLink = c.Mode != "unset" && rapid.IntRange(0, 3).Draw(t, "rootlink") == 0
 		if c.Probe {
 			c.ProbeMethod = rapid.SampledFrom([]string{"", "", "POST", "PUT", "DELETE", "PATCH", "PROPFIND", "OPTIONS"}).Draw(t, "probemethod")
 		}
